@@ -142,7 +142,10 @@ def fixed_scenarios(run):
     td.set("lazy", LazyStackedTensorDict.lazy_stack([m.clone(), m.clone(), m.clone()], 1))
     out = "ok"
     try:
-        td.batch_size = [0]
+        with O.time_limit(20):
+            td.batch_size = [0]
+    except TimeoutError:
+        raise
     except Exception as e:  # noqa
         out = "raised:" + O.cls_of(e)
     viol = O.walk_coherent(td)
@@ -160,7 +163,10 @@ def fixed_scenarios(run):
     td.set("lazy", LazyStackedTensorDict.lazy_stack([m.clone(), m.clone()], 2))
     out = "ok"
     try:
-        td.auto_batch_size_(1)
+        with O.time_limit(20):
+            td.auto_batch_size_(1)
+    except TimeoutError:
+        raise
     except Exception as e:  # noqa
         out = "raised:" + O.cls_of(e)
     viol = O.walk_coherent(td)
@@ -269,7 +275,10 @@ def update_bs_scenarios(run):
         dest, src = mk_dest(), mk_src()
         out = "ok"
         try:
-            dest.update(src, update_batch_size=True)
+            with O.time_limit(20):
+                dest.update(src, update_batch_size=True)
+        except TimeoutError:
+            raise
         except Exception as e:  # noqa
             out = "raised:" + O.cls_of(e)
         run.count("ops.extended", "scenario:update_bs:" + name)
